@@ -79,7 +79,7 @@ def run(ctx):
 
     # ------------------------------------------------------------------ kernel level
     items = list(kc.fixed_cases())
-    big = ctx.scale(12, 60)
+    big = ctx.scale(12, 120)
     per = ctx.scale(30, 300)
     for gen, weight in kc.GENERATORS:
         for _ in range(per * weight):
